@@ -75,6 +75,8 @@ type gen struct {
 	pushes    []pushDesc
 	ts        int64
 	dropped   int
+	seqPush   *pushDesc
+	steps     []stepDesc
 	vipN      int
 	names     map[string]int
 	// what exists, to aim references at
@@ -674,6 +676,18 @@ func (g *gen) trafficPolicy(depth int) *networking.TrafficPolicy {
 	}
 	if g.ch(1, 4) {
 		tp.OutlierDetection = &networking.OutlierDetection{Consecutive_5XxErrors: wrapperspb.UInt32(3), Interval: durationpb.New(1e9), BaseEjectionTime: durationpb.New(3e9)}
+	}
+	if g.ch(1, 5) {
+		// locality load balancing by label priorities (needs outlier detection to take effect); ServiceEntry-backed hosts with
+		// inline endpoints in several localities are the neighbourhood of 9da935c
+		if tp.LoadBalancer == nil {
+			tp.LoadBalancer = &networking.LoadBalancerSettings{LbPolicy: &networking.LoadBalancerSettings_Simple{Simple: networking.LoadBalancerSettings_ROUND_ROBIN}}
+		}
+		tp.LoadBalancer.LocalityLbSetting = &networking.LocalityLoadBalancerSetting{FailoverPriority: [][]string{{"version"}, {"app", "version"},
+			{"topology.istio.io/network", "version"}, {"version=v2"}}[g.r.Intn(4)]}
+		if g.ch(3, 4) {
+			tp.OutlierDetection = &networking.OutlierDetection{Consecutive_5XxErrors: wrapperspb.UInt32(3), Interval: durationpb.New(1e9), BaseEjectionTime: durationpb.New(3e9)}
+		}
 	}
 	switch g.r.Intn(8) {
 	case 0:
@@ -1430,6 +1444,104 @@ func (g *gen) build() {
 	}
 	g.proxies()
 	g.incremental()
+	if !g.malformed && !g.ambient && g.ch(1, 4) {
+		g.sequence()
+	}
+}
+
+// sequence: one proxy's delta-xDS client is followed through 3-6 changes of the config store (delete an object, update it
+// with the spec of another object of its kind, create a fresh one or one deleted before); after every change the server's
+// incremental push is merged into the client's state and that state is judged.
+func (g *gen) sequence() {
+	var cands []pushDesc
+	for _, p := range g.pushes {
+		if p.Type != "waypoint" {
+			cands = append(cands, p)
+		}
+	}
+	if len(cands) == 0 {
+		return
+	}
+	valid := func(c cfgDesc) bool {
+		cc, err := c.toConfig()
+		return err == nil && validateCfg(cc) == ""
+	}
+	var live, dead []cfgDesc
+	for _, c := range g.cfgs {
+		if valid(c) {
+			live = append(live, c)
+		}
+	}
+	p := cands[g.r.Intn(len(cands))]
+	g.seqPush = &p
+	n := 3 + g.r.Intn(4)
+	for try := 0; len(g.steps) < n && try < 30; try++ {
+		switch g.r.Intn(3) {
+		case 0: // delete
+			if len(live) == 0 {
+				continue
+			}
+			i := g.r.Intn(len(live))
+			g.steps = append(g.steps, stepDesc{"delete", live[i]})
+			dead = append(dead, live[i])
+			live = append(live[:i:i], live[i+1:]...)
+		case 1: // update: the spec of another object of the same kind
+			if len(live) < 2 {
+				continue
+			}
+			i := g.r.Intn(len(live))
+			for k, off := 0, g.r.Intn(len(live)); k < len(live); k++ {
+				j := (off + k) % len(live)
+				// (not EnvoyFilters: two filters ADDing one listener / cluster name are duplicates the user asked for)
+				if j != i && live[j].Kind == live[i].Kind && live[i].Kind != "EnvoyFilter" && live[j].JSON != live[i].JSON {
+					c := live[i]
+					c.JSON = live[j].JSON
+					c.Ts += 100
+					if valid(c) {
+						live[i] = c
+						g.steps = append(g.steps, stepDesc{"update", c})
+					}
+					break
+				}
+			}
+		case 2: // create
+			if len(dead) > 0 && g.ch(1, 2) {
+				i := g.r.Intn(len(dead))
+				g.steps = append(g.steps, stepDesc{"create", dead[i]})
+				live = append(live, dead[i])
+				dead = append(dead[:i:i], dead[i+1:]...)
+				continue
+			}
+			before := len(g.cfgs)
+			switch g.r.Intn(6) {
+			case 0:
+				g.virtualService()
+			case 1:
+				g.destinationRule()
+			case 2:
+				g.serviceEntry()
+			case 3:
+				g.gateway()
+			case 4:
+				g.sidecar()
+			case 5:
+				g.envoyFilter()
+			}
+			fresh := append([]cfgDesc{}, g.cfgs[before:]...)
+			g.cfgs = g.cfgs[:before]
+			for _, c := range fresh {
+				if valid(c) {
+					g.steps = append(g.steps, stepDesc{"create", c})
+					live = append(live, c)
+				}
+			}
+		}
+	}
+}
+
+type stepDesc struct {
+	verb string
+	c    cfgDesc
 }
 
 // emit writes the case. In the valid stream every object must pass admission validation.
@@ -1472,6 +1584,14 @@ func (g *gen) emit(o *wire.Out, n int) {
 			l = append(l, k[0], wire.Enc(k[1]), wire.Enc(k[2]))
 		}
 		o.Line(l...)
+	}
+	if g.seqPush != nil && len(g.steps) > 0 {
+		l := g.seqPush.line()
+		l[0] = "dseq"
+		o.Line(l...)
+		for _, st := range g.steps {
+			o.Line(append([]string{"step", st.verb}, st.c.line()[1:]...)...)
+		}
 	}
 }
 
